@@ -65,6 +65,9 @@ CALLS = {
     'trinv-general': 'base.trinv(base.eul2tr(a, b, c) @ base.transl(x, y, z))',
     'norm2': 'base.norm([x, y]) ** 2', 'norm6': 'base.norm([d0, d1, d2, d3, d4, d5]) ** 2', 'normsq4': 'base.normsq([q0, q1, q2, q3])',
     'qpow3': 'base.qpow([q0, q1, q2, q3], 3)', 'qpow-neg': 'base.qpow([q0, q1, q2, q3], -2)', 'qpow0': 'base.qpow([q0, q1, q2, q3], 0)',
+    # the length itself (not its square): a root that is simplified as if the symbols were positive shows only here
+    'norm-one-symbol': 'np.array([base.norm([x, 0, 0])])', 'norm-repeated-symbol': 'np.array([base.norm([0, 3 * x, 4 * x])])',
+    'norm-product': 'np.array([base.norm([x * y, 0])])', 'norm-generic': 'np.array([base.norm([x, y, 2])])',
     'norm': 'base.norm([x, y, z]) ** 2', 'normsq': 'base.normsq([x, y, z])', 'cross': 'base.cross(np.array([x, y, z]), np.array([u, v, w]))',
     'qpow': 'base.qpow([q0, q1, q2, q3], 2)', 'conj': 'base.conj([q0, q1, q2, q3])',
     'SO3.Rx': 'SO3.Rx(a).A', 'SO3.Ry': 'SO3.Ry(a).A', 'SO3.Rz': 'SO3.Rz(a).A',
@@ -230,15 +233,20 @@ def compare(h, name, code):
             numeric_accepts = False
         finally:
             Ctx.cur = saved
-        if numeric_accepts and sy['ok']:
+        if numeric_accepts and sy['ok'] and name in NUMERIC_REF:
+            # the numeric branch is represented by its meaning over R, computed here independently of the library
+            num = np.asarray(NUMERIC_REF[name](env), dtype=object)
+            num_exc = None
+        elif numeric_accepts and sy['ok']:
             from symreal.core import NotEncodable
             raise NotEncodable(f'Term run raised {type(num_exc).__name__} although floats and SymPy symbols are accepted: {num_exc}'[:200])
-        if numeric_accepts:
+        elif numeric_accepts:
             h.true(f"numeric path accepts this call form, the symbolic path must too (Term run raised {type(num_exc).__name__}: "
                    f"{str(num_exc)[:60]}; SymPy run: {sy.get('exc')} {sy.get('msg', '')[:60]})", False)
         else:
             h.true('numeric path raises: symbolic path must raise too', not sy['ok'])
-        return
+        if num_exc is not None:
+            return
     h.true(f"symbolic path accepts the call form (raised {sy.get('exc')}: {sy.get('msg', '')[:80]})", sy['ok'])
     if not sy['ok']:
         return
@@ -263,6 +271,19 @@ def compare(h, name, code):
             # structural constant on the numeric path: must be the exact 0 / 1 symbolically (not 1.0*..., not a float)
             h.true(f'entry{idx}: structural constant stays exact', e in (sympy.Integer(0), sympy.Integer(1)) or
                    (e.is_number and float(e) == float(nv if not isinstance(nv, Term) else nv.const)))
+
+
+def _len(*v):
+    t = sum((x * x for x in v[1:]), v[0] * v[0])
+    return t.sqrt() if isinstance(t, Term) else math.sqrt(t)
+
+
+# meaning over R of the numeric branch for calls where a Term is routed into the library's symbolic branch (base.norm asks
+# issymbol()): used only when the Term run raises although plain floats and SymPy symbols are both accepted
+NUMERIC_REF = {
+    'norm-one-symbol': lambda e: [_len(e['x'], 0, 0)], 'norm-repeated-symbol': lambda e: [_len(0, 3 * e['x'], 4 * e['x'])],
+    'norm-product': lambda e: [_len(e['x'] * e['y'], 0)], 'norm-generic': lambda e: [_len(e['x'], e['y'], 2)],
+}
 
 
 for _name, _code in CALLS.items():
